@@ -77,6 +77,9 @@ func (s *Extractor) ReadChan() <-chan []Match {
 func (s *extractorInstance) processLineSync(source string, lineNum uint64, line BString) (Match, bool) {
 	atomic.AddUint64(&s.readLines, 1)
 	matches := s.matcher.FindSubmatchIndex(line)
+	if len(matches) == 0 {
+		verifTrace("line.u", source, lineNum, 0)
+	}
 
 	// Extract and forward to the ReadChan if there are matches
 	if len(matches) > 0 {
@@ -97,6 +100,7 @@ func (s *extractorInstance) processLineSync(source string, lineNum uint64, line 
 
 			if len(extractedKey) > 0 {
 				atomic.AddUint64(&s.matchedLines, 1)
+				verifTrace("line.m", source, lineNum, 0)
 				return Match{
 					bLine:      line, // Need to keep around what lineStringPtr is pointing to
 					Line:       lineStringPtr,
@@ -108,8 +112,10 @@ func (s *extractorInstance) processLineSync(source string, lineNum uint64, line 
 			}
 
 			atomic.AddUint64(&s.ignoredLines, 1)
+			verifTrace("line.i", source, lineNum, 0)
 		} else {
 			atomic.AddUint64(&s.ignoredLines, 1)
+			verifTrace("line.i", source, lineNum, 0)
 		}
 	}
 	return Match{}, false
@@ -117,6 +123,7 @@ func (s *extractorInstance) processLineSync(source string, lineNum uint64, line 
 
 func (s *Extractor) asyncWorker(wg *sync.WaitGroup, inputBatch <-chan InputBatch) {
 	defer wg.Done()
+	verifTrace("w.start", "", 0, 0)
 
 	matcher := s.matcherFactory.CreateInstance()
 	si := extractorInstance{
@@ -130,8 +137,10 @@ func (s *Extractor) asyncWorker(wg *sync.WaitGroup, inputBatch <-chan InputBatch
 	for {
 		batch, more := <-inputBatch
 		if !more {
+			verifTrace("w.exit", "", 0, 0)
 			break
 		}
+		verifTrace("w.recv", batch.Source, batch.BatchStart, uint64(len(batch.Batch)))
 
 		var matchBatch []Match
 		for idx, str := range batch.Batch {
@@ -144,7 +153,9 @@ func (s *Extractor) asyncWorker(wg *sync.WaitGroup, inputBatch <-chan InputBatch
 			}
 		}
 		if len(matchBatch) > 0 {
+			verifTrace("w.send", matchBatch[0].Source, matchBatch[0].LineNumber, uint64(len(matchBatch)))
 			s.readChan <- matchBatch
+			verifTrace("w.sent", "", 0, 0)
 		}
 	}
 }
@@ -173,6 +184,7 @@ func New(inputBatch <-chan InputBatch, config *Config) (*Extractor, error) {
 
 	go func() {
 		wg.Wait()
+		verifTrace("rc.close", "", 0, 0)
 		close(extractor.readChan)
 	}()
 
